@@ -25,6 +25,11 @@ SCRATCH_ROOT = os.environ.get('PYXVERIF_SCRATCH', '/var/tmp')
 ALLOWED_AXIOMS = {'propext', 'Classical.choice', 'Quot.sound'}
 FORBIDDEN = re.compile(r'\bsorry\b|\badmit\b|^\s*axiom\s|native_decide|bv_decide|implemented_by|'
                        r'\bunsafe\s|maxHeartbeats\s+0\b|ofReduceBool', re.M)
+# `partial def` (opaque to the kernel: no theorem can mention its body) is allowed only in the driver's IO loop and
+# decoders and in the wire codecs listed here, which turn protocol lines into model values and answers into text;
+# everything the theorems are about is total
+PARTIAL_ALLOWED = ('Driver/', 'PyxModel/Sexp.lean', 'PyxModel/Interp/Decode.lean', 'PyxModel/Prebuild/Decode.lean',
+                   'PyxModel/Extract/XsdWire.lean')
 TRUSTED_BASE = [
     'Lean 4.33.0 kernel (lake build; thorough tier re-checks with leanchecker)',
     'axioms allowed per theorem: propext, Classical.choice, Quot.sound (audited by #print axioms on every run); '
@@ -286,6 +291,9 @@ class LeanSide(object):
             m = FORBIDDEN.search(_strip_lean_comments(f.read_text()))
             if m:
                 self.broken.append('forbidden token %r in %s' % (m.group(0).strip(), f.relative_to(self.dir)))
+            rel = str(f.relative_to(self.dir))
+            if not rel.startswith(PARTIAL_ALLOWED) and re.search(r'\bpartial\s+def\b', _strip_lean_comments(f.read_text())):
+                self.broken.append('partial def outside the driver / wire codecs in %s' % rel)
         audit_file = self.ws.tmp('audit') / ('Audit%s.lean' % self.prop)
         audit_file.write_text('import Props.%s\n' % self.prop +
                               ''.join('#print axioms %s\n' % n for n in self.theorem_names))
